@@ -102,7 +102,8 @@ fn ping(x: &X) -> X {
     X::L(vec![x_str(&data), x_strs(quoted_str_split(&data))])
 }
 /// kvarnctl's message construction (ctl/src/main.rs l.263-291), statement for statement (the
-/// code lives in a binary crate's `main`; the thorough tier also runs the real binary).
+/// code lives in a binary crate's `main`; the real binary is run by `ctl.binary`, c19bin.rs, in both tiers -- this copy
+/// serves the exhaustive in-process sweep).
 pub fn client_message(command: &str, args: &[String]) -> String {
     Some(args.iter())
         .and_then(|args| if args.len() == 0 { None } else { Some(args) })
